@@ -420,7 +420,7 @@ def lccb(repo: Repo, chk: Check, rule: str = "C10.lccb") -> None:
     sel = False
     cur = None
     for n in ast.walk(f.node):
-        if isinstance(n, ast.GeneratorExp):
+        if isinstance(n, (ast.GeneratorExp, ast.ListComp)):
             for g in n.generators:
                 for c in g.ifs:
                     m = norm.any_match(["$s.step == $c", "$c == $s.step"], c)
